@@ -123,16 +123,30 @@ def judge_rest(ctx, run, meta):
 
 
 def judge_trace(ctx, case, outs, run, sched):
+    """The engine's state events must be those of SOME admissible reference variant (variants may take the same outcome
+    along different paths, e.g. a parameter-path failure named States.Runtime is not catchable)."""
+    subs = []
+    for o in outs:
+        sub = type(ctx)(ctx.check_id, ctx.tier, ctx.seed)
+        judge_trace_one(sub, case, o, run, sched)
+        if not sub.violation_counts:
+            ctx.count("traces_compared"); ctx.count("entered_events_compared", sub.counters.get("entered_events_compared", 0))
+            return
+        subs.append(sub)
+    ctx.count("traces_compared"); ctx.count("entered_events_compared", subs[0].counters.get("entered_events_compared", 0))
+    for v in subs[0].violations:
+        ctx.violation(v["kind"], v["witness"], v["mechanism"])
+
+
+def judge_trace_one(ctx, case, o, run, sched):
     arn = run.execs[0]
     h = run.histories.get(arn)
-    o = outs[0]
     if h is None:
         ctx.violation("no-history-for-standard-execution", S.witness_of(run), None)
         return
     ent, ex = entered_exited(h)
     ref_ent = [(n, d) for kind, n, d, depth in o.trace if kind == "enter"]
     ref_ex = [(n, d) for kind, n, d, depth in o.trace if kind == "exit"]
-    ctx.count("traces_compared")
     ctx.count("entered_events_compared", len(ent))
     types = corpus.state_types(case["asl"])
     fan = "Parallel" in types or "Map" in types
